@@ -247,8 +247,24 @@ def check_live_hypotheses(sim, circuit, strip_forks):
             return False
         return last_read.get(x, -1) >= k or x in captured or x == zero
     slots = [x for x in range(sim.ppo_offset) if cl[x] >= 0 and x not in (tmp, tmp2)]
+    cc = np.asarray(sim.c_caps)
+    for x in slots:
+        if cc[x] < 1:
+            out.append(('A4w:positive-capacity', f'mapped slot {x} has capacity {int(cc[x])}'))
+            return out
+    overlap = lambda a, b: cl[a] < cl[b] + cc[b] and cl[b] < cl[a] + cc[a]
     for k, op in enumerate(ops):
         o = int(op[1])
+        # hypotheses of the waveform composition contract (contracts.wave_comp_c): regions instead of locations
+        for x in op[2:6]:
+            if cl[int(x)] >= 0 and overlap(int(x), o):
+                out.append(('A4w:output-region-overlaps-operand', f'op {k}: the region of output slot {o} overlaps the region of operand slot {int(x)}'))
+                return out
+        if o != tmp:
+            for x in slots:
+                if live(x, k + 1) and overlap(x, o) and not ((cl[x], cc[x]) == (cl[o], cc[o]) and root(x) == root(o)):
+                    out.append(('A4w:no-clobber-region', f'op {k} writes region ({int(cl[o])},{int(cc[o])}) of slot {o}, which overlaps the region of slot {x} that is still live'))
+                    return out
         for x in op[2:6]:
             if not live(int(x), k) and produced_at(int(x)) is not None and produced_at(int(x)) >= k:
                 out.append(('A2:operands-live', f'op {k} reads slot {int(x)} before it is produced'))
